@@ -27,6 +27,7 @@ Definition enc_tr (x : tr) : list T :=
   | TOut o => [Tl [Tn 9; Topt enc_c o]]
   | TLen n => [Tl [Tn 10; Tnat n]]
   | TLate => [Tl [Tn 11]]
+  | TEarly => [Tl [Tn 12]]
   end.
 
 Definition enc_trace (l : list tr) : T := Tl (flat_map enc_tr l).
